@@ -83,6 +83,14 @@ CLAIMED["C19"] = {
     "technique": "guard facts incl. disjunctive merge facts + loop-carried variable pairing + exact interval classifier + layout/read-set tables",
 }
 
+CLAIMED["C03"] = {
+    "category": "other",
+    "text": "The iterator's transition function decided on MIR: tags() starts a TagIter at offset 0 over exactly the loaded structure's payload field (region byte 8 onwards); next() reads the header at buffer.as_ptr() + offset, stores round8(offset + size_of Header + payload_len) = round8(offset + size) (linear/remainder normal form), yields ref_from_slice(&buffer[offset..new offset]).unwrap() with bounds-checked slicing; end test first, assert offset < len dominating the raw read; write-set per exit (None path writes nothing), derived Clone, who-may-construct; ModuleIter = find(type == Module numerically) then cast::<ModuleTag>, over a fresh tags(). By induction this is the specification's walk for every tag sequence; panics are the listed controlled ones.",
+    "design_ref": "DESIGN.md §4 C03",
+    "note": TB + "; relies on C14 (item address/extent), C15 (cast), C20 (numeric type equality); std Iterator::find/Option::map contracts",
+    "technique": "value terms of iterator state transitions + remainder normal form + guard dominance + write-set per exit",
+}
+
 PENDING = "check not yet built in this session (machinery under construction; see DESIGN.md §9 build order) - not claimed until its premises run, pass on the repaired tree and fire on seeded breaks"
 NOT_APPLICABLE = {("C%02d" % i): PENDING for i in range(1, 21)}
 
